@@ -8,6 +8,13 @@ pub trait ServerContext {}
 pub struct Opaque<T> { pub _p: core::marker::PhantomData<T> }
 
 // ---- TRUSTED (V16) ----
+/// std: Option::is_some_and / Option::is_none_or (no vstd contract in this build)
+pub assume_specification<T, F: FnOnce(T) -> bool>[ Option::<T>::is_some_and ](o: Option<T>, f: F) -> (r: bool)
+    requires o is Some ==> call_requires(f, (o->Some_0,)),
+    ensures o is None ==> !r, o is Some ==> call_ensures(f, (o->Some_0,), r);
+pub assume_specification<T, F: FnOnce(T) -> bool>[ Option::<T>::is_none_or ](o: Option<T>, f: F) -> (r: bool)
+    requires o is Some ==> call_requires(f, (o->Some_0,)),
+    ensures o is None ==> r, o is Some ==> call_ensures(f, (o->Some_0,), r);
 #[verifier::external_body]
 pub struct Logger { _p: u8 }
 impl Logger {
